@@ -292,7 +292,7 @@ func oracle(p *progSpec, o *obsT, res *okT, er *errT) []hk.Failure {
 		}
 		st := docState(p, finalT.Status)
 		content := finalT.Status != 204 && len(finalT.B.Body) > 0
-		readOK := finalT.B.ReadErr == 0
+		readOK := p.bodyErr(finalT.B) == 0
 		if dm != nil && dlevel == "cli" && !resent && finalT.Fail == 0 && finalT.Status == 401 && finalT.Challenge != "good" {
 			// the client-level digest middleware (first in the chain since e430ccb) failed on the
 			// challenge: resp.Err is set before the binding step, which then cannot obtain the body
@@ -355,7 +355,7 @@ func oracle(p *progSpec, o *obsT, res *okT, er *errT) []hk.Failure {
 			if !has(o.Log, a, "send", 0) || sp.T.Fail != 0 {
 				continue
 			}
-			if docState(p, sp.T.Status) == 0 && sp.T.Status != 204 && sp.T.B.ReadErr == 0 {
+			if docState(p, sp.T.Status) == 0 && sp.T.Status != 204 && p.bodyErr(sp.T.B) == 0 {
 				refUnmarshal(sp.T.B, ref)
 			}
 		}
@@ -457,12 +457,19 @@ func oracle(p *progSpec, o *obsT, res *okT, er *errT) []hk.Failure {
 				add(t.Fail)
 				return
 			}
-			if t.B.ReadErr != 0 {
-				may = append(may, t.B.ReadErr)
-				return
-			}
 			st := docState(p, t.Status)
 			u := p.refUnmarshalFails(t.B)
+			if be := p.bodyErr(t.B); be != 0 {
+				// the body is certainly read (and the failure certainly raised) when auto-read is on for
+				// this status or a target makes the binding step read it
+				bound := t.Status != 204 && ((st == 0 && p.TResult) || (st == 1 && (p.TError || p.TCommon)))
+				if (p.AutoRead == 0 && !p.Save && t.Status > 199) || bound {
+					add(be)
+				} else {
+					may = append(may, be)
+				}
+				return
+			}
 			if t.Status != 204 {
 				if (st == 0 && p.TResult && u[0]) || (st == 1 && p.TError && u[1]) || (st == 1 && !p.TError && p.TCommon && u[2]) {
 					if p.UmCustom && t.B.UmErr != 0 {
@@ -487,7 +494,7 @@ func oracle(p *progSpec, o *obsT, res *okT, er *errT) []hk.Failure {
 		} else if has(o.Log, la, "send", 0) {
 			if p.Save && at.T.Fail == 0 && at.T.B.WriteErr != 0 {
 				may = append(may, at.T.B.WriteErr)
-				if !resent && at.T.B.ReadErr == 0 {
+				if !resent && p.bodyErr(at.T.B) == 0 {
 					must = append(must, at.T.B.WriteErr)
 				}
 			}
@@ -523,7 +530,7 @@ func oracle(p *progSpec, o *obsT, res *okT, er *errT) []hk.Failure {
 		}
 		if stale { // the response (and its Err) of the previous attempt is what the caller holds
 			pa := p.Attempts[la-1]
-			may = append(may, pa.T.Fail, pa.T.B.ReadErr, pa.T.B.UmErr, pa.T.B.WriteErr, pa.T2.Fail, pa.T2.B.WriteErr, eUnmarshal, pa.GetBody)
+			may = append(may, pa.T.Fail, p.bodyErr(pa.T.B), pa.T.B.UmErr, pa.T.B.WriteErr, pa.T2.Fail, pa.T2.B.WriteErr, eUnmarshal, pa.GetBody)
 			for _, m := range append(append([]mwSpec{}, pa.Cli...), pa.Req...) {
 				may = append(may, m.Set, m.Ret)
 			}
